@@ -280,9 +280,9 @@ func runWorker(bin string, j job, gomaxprocs int, timeout time.Duration) (*worke
 		cmd.Env = append(cmd.Env, "GORACE=log_path="+j.RaceLog+" halt_on_error=0 history_size=3")
 	}
 	cmd.Stdout = io.Discard
-	errf, _ := os.Create(strings.TrimSuffix(j.Out, ".json") + ".stderr")
-	cmd.Stderr = errf
-	defer errf.Close()
+	// the code under test logs profusely (glog): keep only the tail, in memory
+	tail := &tailWriter{max: 64 << 10}
+	cmd.Stderr = tail
 	if err := cmd.Start(); err != nil {
 		return nil, err
 	}
@@ -293,18 +293,15 @@ func runWorker(bin string, j job, gomaxprocs int, timeout time.Duration) (*worke
 	case <-time.After(timeout):
 		cmd.Process.Kill()
 		<-done
-		return nil, fmt.Errorf("worker %d exceeded the watchdog (%v) - see %s", j.Worker, timeout, errf.Name())
+		return nil, fmt.Errorf("worker %d exceeded the watchdog (%v); stderr tail:\n%s", j.Worker, timeout, tail.String())
 	}
 	b, err := os.ReadFile(j.Out)
 	if err != nil {
-		tail := ""
-		if eb, e2 := os.ReadFile(errf.Name()); e2 == nil {
-			if len(eb) > 3000 {
-				eb = eb[len(eb)-3000:]
-			}
-			tail = string(eb)
+		t := tail.String()
+		if len(t) > 4000 {
+			t = t[len(t)-4000:]
 		}
-		return nil, fmt.Errorf("worker %d produced no result: %v\n%s", j.Worker, err, tail)
+		return nil, fmt.Errorf("worker %d produced no result: %v\n%s", j.Worker, err, t)
 	}
 	var out workerOut
 	if err := json.Unmarshal(b, &out); err != nil {
@@ -793,4 +790,30 @@ func main() {
 	default:
 		die(2, "unknown command %s", os.Args[1])
 	}
+}
+
+// tailWriter keeps the last max bytes written to it.
+type tailWriter struct {
+	mu  sync.Mutex
+	buf []byte
+	max int
+}
+
+func (t *tailWriter) Write(p []byte) (int, error) {
+	t.mu.Lock()
+	defer t.mu.Unlock()
+	t.buf = append(t.buf, p...)
+	if len(t.buf) > 2*t.max {
+		t.buf = append([]byte(nil), t.buf[len(t.buf)-t.max:]...)
+	}
+	return len(p), nil
+}
+
+func (t *tailWriter) String() string {
+	t.mu.Lock()
+	defer t.mu.Unlock()
+	if len(t.buf) > t.max {
+		return string(t.buf[len(t.buf)-t.max:])
+	}
+	return string(t.buf)
 }
